@@ -53,10 +53,14 @@ func checkC17(c *Ctx) {
 	guidFile := map[*ssa.Function]bool{}
 	if b2g != nil && g2b != nil {
 		guidFile[b2g], guidFile[g2b] = true, true
-		rl := c.flatten(c.codecTable(b2g, true), true, 0)
+		rl := c.leavesOf(b2g, true, 0)
 		okR := len(rl) == 4
-		for _, l := range rl {
-			if l.order != "BE" {
+		wantR := []struct {
+			name  string
+			width int
+		}{{"Data1", 4}, {"Data2", 2}, {"Data3", 2}, {"Data4", 8}}
+		for k, l := range rl {
+			if k < 4 && (l.width != wantR[k].width || l.order != "BE" && !(l.order == "-" && k == 3) || !strings.HasSuffix(l.id, "."+wantR[k].name) && l.id != "value" && l.id != "bytes") {
 				okR = false
 			}
 		}
@@ -67,11 +71,10 @@ func checkC17(c *Ctx) {
 				continue
 			}
 			guidFile[w] = true
-			wl := c.flatten(c.codecTable(w, false), false, 0)
+			wl := c.leavesOf(w, false, 0)
 			ok := len(wl) == 4
-			want := []string{"Data1", "Data2", "Data3", "Data4"}
 			for k, l := range wl {
-				if l.order != "BE" || k < 4 && !strings.HasSuffix(l.id, "."+want[k]) {
+				if k < 4 && (l.width != wantR[k].width || l.order != "BE" && !(l.order == "-" && k == 3) || !strings.HasSuffix(l.id, "."+wantR[k].name)) {
 					ok = false
 				}
 			}
@@ -90,8 +93,11 @@ func checkC17(c *Ctx) {
 		}
 		c.R.Check(ok, "G6.pair", name(fn), "text->GUID", c.Pos(fn.Pos()), "text is hex-decoded (case-insensitive) and handed to the big-endian byte decoder", "result does not derive from BytesToGUID(hex.DecodeString(text))")
 	}
-	if fn := c.FnOpt("efi/util.(*EFIGUID).Bytes"); fn != nil {
-		guidFile[fn] = true
+	for _, spec := range []string{"efi/util.(*EFIGUID).Bytes", "efi/util.(*EFIGUID).Format"} {
+		// the text family itself may use the text-order bytes
+		if fn := c.FnOpt(spec); fn != nil {
+			guidFile[fn] = true
+		}
 	}
 	// ---- G7: GUIDs inside encoded structures are little endian
 	counts := map[string]int{}
@@ -629,6 +635,8 @@ func (c *Ctx) hardDriveText(fn *ssa.Function) {
 		}
 		want := []string{"PartitionNumber", "PartitionFormat", "PartitionSignature", "PartitionStart", "PartitionSize"}
 		var bad []string
+		dv := c.deepViewOf(fn, 2)
+		dv.stopAt = map[string]bool{utilPkg + ".EFIGUID.Format": true, utilPkg + ".BytesToGUID": true}
 		for j, a := range args {
 			if j >= len(want) {
 				break
@@ -636,7 +644,7 @@ func (c *Ctx) hardDriveText(fn *ssa.Function) {
 			slr := c.Slicer()
 			slr.Control = true
 			sl := slr.Slice(a)
-			if !ir.HasField(sl, dev+want[j]) {
+			if !ir.HasField(sl, dev+want[j]) && dv.fieldOrigin(a, dv.root, 0) != dev+want[j] {
 				bad = append(bad, fmt.Sprintf("argument %d does not derive from %s", j+1, want[j]))
 			}
 			for _, o := range want {
